@@ -50,7 +50,7 @@ type rout struct {
 }
 
 func rsuite(label string) rdkg.Suite {
-	return edwards25519.NewBlakeSHA256Ed25519WithRand(alpha.Stream("c11-rabin-" + label))
+	return edwards25519.NewBlakeSHA256Ed25519WithRand(alpha.Stream("c11-rabin-" + label + keyTag))
 }
 
 func runRabin(r rcfg) *rout {
